@@ -1,6 +1,6 @@
 #!/bin/bash
 # offline build of the harness from files on disk
 set -e
-cd /verif/harness
+cd "$(cd "$(dirname "$0")" && pwd)/harness"
 export CARGO_NET_OFFLINE=true
 cargo build --release --offline
